@@ -13,13 +13,15 @@ trap cleanup EXIT
 cd "$W" || exit 2
 export CARGO_TARGET_DIR=$T CARGO_NET_OFFLINE=true
 cp "$D/demo.rs" tests/zz_demo.rs
+# some demos need a tiny example program next to them
+if [ -f "$D/demo_example.rs" ]; then cp "$D/demo_example.rs" examples/c11_prog.rs; fi
 echo "== demo on the unmodified tree"
 if cargo test --offline --test zz_demo >"$D/confirm-demo-clean.log" 2>&1; then echo "demo-clean: PASS"; else echo "demo-clean: FAIL (unexpected)"; tail -15 "$D/confirm-demo-clean.log"; fi
 echo "== applying patch"
 if ! git apply "$D/patch.diff"; then echo "patch does not apply"; exit 1; fi
 echo "== demo with the change"
 if cargo test --offline --test zz_demo >"$D/confirm-demo-mut.log" 2>&1; then echo "demo-mutant: PASS (unexpected)"; else echo "demo-mutant: FAIL (as wanted)"; fi
-rm -f tests/zz_demo.rs
+rm -f tests/zz_demo.rs examples/c11_prog.rs
 echo "== existing suite with the change"
 cargo nextest run --workspace --no-fail-fast --offline --test-threads 8 >"$D/confirm-suite.log" 2>&1
 python3 - "$D/confirm-suite.log" <<'PY'
